@@ -280,3 +280,6 @@ PLAN["C01"]["units"] = PLAN["C01"]["units"] + [UT + "valid_server_name"]
 # the choice between the two stream classes is made in H11Protocol._create_stream
 PLAN["C11"]["units"] = PLAN["C11"]["units"] + [H1P + "_create_stream"]
 PLAN["C11"]["trusted_base"] = PLAN["C11"]["trusted_base"] + LIB_H11
+# C13 "TLS ALPN h2 ... select HTTP/2": the servers hand the wrapper what TLS negotiated
+PLAN["C13"]["units"] = PLAN["C13"]["units"] + [ATS + "run", TTS + "run"]
+PLAN["C13"]["trusted_base"] = PLAN["C13"]["trusted_base"] + LIB_IO
